@@ -42,6 +42,12 @@ D2At(C, k) ==
        CASE u = 0 -> Star(a, TRUE)  [] u = 1 -> Star(a, FALSE) [] u = 2 -> Plus(a, TRUE) [] u = 3 -> Plus(a, FALSE)
          [] u = 4 -> Quest(a, TRUE) [] u = 5 -> Quest(a, FALSE) [] u = 6 -> Cap(a)
 
+(* ---- G1: EVERYTHING of depth <= 1 over the union of the atom sets (the simple shapes every strategy is selected by):
+        the depth-2 families are sampled (4 shards of 16..64), this one is in the universe as a whole ---- *)
+G1Atoms == G2aAtoms \cup G2xAtoms \cup G2mAtoms \cup G2uAtoms
+           \cup {Lit(s0), Cls({s0,s1}), NCls({sa,sb}), Lit(sdot), Cls({sa,sb,sc,sx,s0,s1,sus}), Look("nwb"), LitF(sa), LitStr(<<sa,sb>>)}
+G1(z) == Close(G1Atoms, TRUE)
+
 (* ---- LIT: literals and alternations of literals ---- *)
 Words(S, n) == UNION {[1..k -> S] : k \in 1..n}
 W3 == Words({sa,sb,sc}, 3)
@@ -109,6 +115,8 @@ RepOK(mn, mx) == mx = -1 \/ (mx >= mn /\ mx >= 1) \/ (mn = 0 /\ mx = 0)
 REP(z) == {Rep(t[1], t[2], t[3], t[4]) :
           t \in {u \in {Lit(sa), Cls({sa,sb}), Cap(Lit(sa)), Alt(Lit(sa),Emp), Quest(Lit(sa),TRUE), Cap(Star(Lit(sa),TRUE))}
                         \X (0..2) \X {-1,0,1,2,3} \X BOOLEAN : RepOK(u[2], u[3])}}
+       \cup {Rep(CapN(Lit(sa), <<110>>), mn, mx, TRUE) : mn \in {0, 2}, mx \in {-1, 2, 3}}              \* named group under a counted repetition
+       \cup {Cat(Rep(Cat(CapN(Cls({sa,sb}), <<110>>), Lit(sdash)), 1, 2, TRUE), CapN(Lit(sb), <<109,50>>))}
        \cup {Cat(Rep(t[1], t[2], t[3], TRUE), t[4]) :
           t \in {u \in {Lit(sa), Cls({sa,sb})} \X (0..2) \X {-1,2,3} \X {Lit(sa), Lit(sb)} : RepOK(u[2], u[3])}}
 
@@ -137,6 +145,7 @@ OP(z) == {Cat(Look("bot"), Cat(Alt(p, q), t)) : p \in OPAtoms, q \in OPAtoms, t 
 FamilySet(f) ==
   CASE f = "BIG" -> BIGL(0)
     [] f = "OP"  -> OP(0)
+    [] f = "G1"  -> G1(0)
     [] f = "LIT" -> LIT(0) \cup LITF(0)
     [] f = "REV" -> SUF(0) \cup INN(0) \cup SET(0) \cup ML(0)
     [] f = "ANC" -> ANC(0)
@@ -147,7 +156,7 @@ FamilySet(f) ==
 
 G2Base(f) == SetToSeq(Close(CASE f = "G2a" -> G2aAtoms [] f = "G2m" -> G2mAtoms [] f = "G2u" -> G2uAtoms [] f = "G2x" -> G2xAtoms, f # "G2u"))
 IsG2(f) == f \in {"G2a","G2m","G2u","G2x"}
-FamilyNames == <<"G2a","G2m","G2u","G2x","LIT","REV","ANC","CC","DIG","CAP","U8","BIG","OP">>
+FamilyNames == <<"G2a","G2m","G2u","G2x","LIT","REV","ANC","CC","DIG","CAP","U8","BIG","OP","G1">>
 
 (* --------------------------- haystack alphabets -------------------------- *)
 \* fold partners present in the table
